@@ -254,6 +254,9 @@ structure VolNode where
   name  : Name
   vtype : Nat
   files : List FileNode
+  /-- files are realised when the volume is first entered: an error of that step is raised then,
+  not when the partition is listed. -/
+  failed : Option Err := none
 deriving Repr
 
 /-- the volumes of one partition with their files (`VolumesAdapter`, `Volume._realize_files`). -/
@@ -262,16 +265,17 @@ def volumes (p : Part) (programOk : Bytes → Bool) : List VolEntry → Except E
   | v :: vs =>
     if v.vtype = 0 then volumes p programOk vs
     else
-      match getPath p.links SAT_ENTRIES v.start with
-      | .error e => .error e                                        -- RequestedInvalidSector / InvalidFatDefinition: not caught
-      | .ok path =>
-        let tbl := segment p path
-        match fileTable p tbl (tbl.length / FILE_ENTRY_BYTES) 0 with
-        | .error e => .error e
-        | .ok entries =>
-          match volumes p programOk vs with
-          | .error e => .error e
-          | .ok rest => .ok (⟨v.name, v.vtype, entries.filterMap (realizeFile p · programOk)⟩ :: rest)
+      let node : VolNode :=
+        match getPath p.links SAT_ENTRIES v.start with
+        | .error e => ⟨v.name, v.vtype, [], some e⟩                 -- RequestedInvalidSector / InvalidFatDefinition: not caught
+        | .ok path =>
+          let tbl := segment p path
+          match fileTable p tbl (tbl.length / FILE_ENTRY_BYTES) 0 with
+          | .error e => ⟨v.name, v.vtype, [], some e⟩
+          | .ok entries => ⟨v.name, v.vtype, entries.filterMap (realizeFile p · programOk), none⟩
+      match volumes p programOk vs with
+      | .error e => .error e
+      | .ok rest => .ok (node :: rest)
 
 structure PartNode where
   letter : Nat
